@@ -1,12 +1,12 @@
 package main
 
 import (
-	"time"
-	"sync"
 	"fmt"
 	"math/rand"
 	"strconv"
 	"strings"
+	"sync"
+	"time"
 
 	"github.com/hashicorp/serf/serf"
 )
@@ -19,6 +19,65 @@ var c05BufSizes = []int{1, 2, 3, 4, 8, 512}
 
 var c05Names = []string{"a", "b", "deploy", ""}
 var c05Payloads = []string{"", "x", "\x00\x01", "x"}
+
+// c05Payload decodes a payload token: hex, `-` = empty (non-nil) byte slice, `~` = nil
+// (the two are different on the wire and equal for userEvent.Equals).
+func c05Payload(tok string) []byte {
+	if tok == "~" {
+		return nil
+	}
+	return unhex(tok)
+}
+
+func c05PayloadOK(tok string) bool { return tok == "~" || unhex(tok) != nil }
+
+func c05PayloadTok(p string, isNil bool) string {
+	if isNil && p == "" {
+		return "~"
+	}
+	return hexs(p)
+}
+
+var c05Seps = []string{":", "", "/", "\x00", " ", "|", "=", "\n", ",", "::"}
+var c05Parts = []string{"deploy", "web", "v2", "a", "", "x", "ab", "b", ":", "\x00"}
+
+// c05Family returns distinct (name, payload) items that an ambiguous identity
+// (a concatenation of name and payload, with or without a separator; the name
+// only; the payload only; lengths) would confuse: different splits of one string
+// around each separator, prefixes / suffixes of each other, empty name or payload.
+func c05Family(rng *rand.Rand) [][2]string {
+	sep := c05Seps[rng.Intn(len(c05Seps))]
+	pick := func() string { return c05Parts[rng.Intn(len(c05Parts))] }
+	p0, p1, p2 := pick(), pick(), pick()
+	if p1 == "" && sep == "" {
+		p1 = "w"
+	}
+	fam := [][2]string{
+		{p0, p1 + sep + p2},            // name | rest
+		{p0 + sep + p1, p2},            // same concatenation with every separator-joined key, other split
+		{p0 + sep + p1 + sep + p2, ""}, // everything in the name
+		{"", p0 + sep + p1 + sep + p2}, // everything in the payload
+		{p0 + sep, p1 + sep + p2},      // separator moved to the name side
+		{p0, sep + p1 + sep + p2},      // … and to the payload side
+		{p0 + p1, p2},                  // plain concatenation splits
+		{p0, p1 + p2},
+		{p2, p0 + sep + p1}, // swapped roles
+		{p0, p1},            // prefixes of the above
+		{p0, ""},
+		{"", p1},
+	}
+	// drop exact repeats inside the family (they would be genuine duplicates)
+	var out [][2]string
+	seen := map[[2]string]bool{}
+	for _, it := range fam {
+		if !seen[it] {
+			seen[it] = true
+			out = append(out, it)
+		}
+	}
+	rng.Shuffle(len(out), func(i, j int) { out[i], out[j] = out[j], out[i] })
+	return out
+}
 
 // c05Time draws a Lamport time around the generator's estimate of the node's clock.
 func c05Time(rng *rand.Rand, cur uint64, n uint64, used []uint64) uint64 {
@@ -81,6 +140,9 @@ type c05Gen struct {
 	dup    bool
 	coll   bool
 	bySlot map[uint64]uint64
+	// fam: when set, the items of this case come from one ambiguous family and
+	// events tend to share Lamport times
+	fam [][2]string
 }
 
 func (g *c05Gen) note(t uint64) {
@@ -94,8 +156,14 @@ func (g *c05Gen) note(t uint64) {
 	}
 }
 
+// item returns a name and a payload token.
 func (g *c05Gen) item() (string, string) {
-	return c05Names[g.rng.Intn(len(c05Names))], c05Payloads[g.rng.Intn(len(c05Payloads))]
+	if g.fam != nil && g.rng.Intn(8) != 0 {
+		it := g.fam[g.rng.Intn(len(g.fam))]
+		return it[0], c05PayloadTok(it[1], g.rng.Intn(3) == 0)
+	}
+	p := c05Payloads[g.rng.Intn(len(c05Payloads))]
+	return c05Names[g.rng.Intn(len(c05Names))], c05PayloadTok(p, g.rng.Intn(6) == 0)
 }
 
 func (g *c05Gen) ev(allowMax bool) {
@@ -105,11 +173,14 @@ func (g *c05Gen) ev(allowMax bool) {
 		return
 	}
 	t := c05Time(g.rng, g.cur, g.n, g.used)
+	if g.fam != nil && len(g.used) > 0 && g.rng.Intn(3) > 0 { // another item at the Lamport time just used
+		t = g.used[len(g.used)-1]
+	}
 	if t == maxU64 && !allowMax {
 		t = maxU64 - 1
 	}
 	name, payload := g.item()
-	body := fmt.Sprintf("%d %s %s", t, hexs(name), hexs(payload))
+	body := fmt.Sprintf("%d %s %s", t, hexs(name), payload)
 	for _, s := range g.sent {
 		if s == body {
 			g.dup = true
@@ -147,9 +218,13 @@ func (g *c05Gen) pp(allowMax bool) {
 				t = maxU64 - 1
 			}
 		}
-		for k := g.rng.Intn(3); k > 0; k-- {
+		k := g.rng.Intn(3)
+		if g.fam != nil {
+			k = 1 + g.rng.Intn(4) // several family members at one Lamport time
+		}
+		for ; k > 0; k-- {
 			name, payload := g.item()
-			items = append(items, hexs(name)+"."+hexs(payload))
+			items = append(items, hexs(name)+"."+payload)
 		}
 		for _, it := range items {
 			p := strings.SplitN(it, ".", 2)
@@ -189,6 +264,37 @@ func c05GenCases(rng *rand.Rand, tier string) []Case {
 		"cfg 2", "ev 1 61 -", "ev " + M + " 62 -", "ev 1 61 -"}})
 	out = append(out, Case{ID: "wrap-redelivery-pp", Tags: []string{"boundary"}, Nontrivial: true, Ops: []string{
 		"cfg 2", "ev 1 61 -", "pp 0 0 nil " + M + ":62.-", "pp 2 0 nil 1:61.-"}})
+	// distinct events at one Lamport time whose name/payload concatenations coincide
+	// under a separator (and the seeded C05-c input itself): each must be delivered
+	// exactly once, by gossip and by push/pull
+	{
+		type pair struct{ n1, p1, n2, p2 string }
+		pairs := []pair{{"deploy:web", "v2", "deploy", "web:v2"}}
+		for _, sep := range c05Seps {
+			pairs = append(pairs,
+				pair{"deploy" + sep + "web", "v2", "deploy", "web" + sep + "v2"},
+				pair{"a" + sep, "b", "a", sep + "b"},
+				pair{"", "a" + sep + "b", "a" + sep + "b", ""},
+				pair{"a", "", "", "a"},
+				pair{"ab", "c", "a", "bc"})
+		}
+		for i, pr := range pairs {
+			n := []int{1, 2, 4, 512}[i%4]
+			t := uint64(1 + i%7)
+			e1 := fmt.Sprintf("%d %s %s", t, hexs(pr.n1), hexs(pr.p1))
+			e2 := fmt.Sprintf("%d %s %s", t, hexs(pr.n2), hexs(pr.p2))
+			ops := []string{fmt.Sprintf("cfg %d", n), "ev " + e1, "ev " + e2, "ev " + e1, "ev " + e2}
+			if i%2 == 1 {
+				ops = []string{fmt.Sprintf("cfg %d", n),
+					fmt.Sprintf("pp 0 0 %d:%s.%s;%s.%s;%s.%s", t, hexs(pr.n1), hexs(pr.p1), hexs(pr.n2), hexs(pr.p2), hexs(pr.n1), hexs(pr.p1)),
+					"ev " + e2, "ev " + e1}
+			}
+			out = append(out, Case{ID: fmt.Sprintf("amb%d", i), Tags: []string{"ambiguous-fixed"}, Nontrivial: true, Ops: ops})
+		}
+		// nil and empty payloads are the same event
+		out = append(out, Case{ID: "nil-empty", Tags: []string{"ambiguous-fixed"}, Nontrivial: true, Ops: []string{
+			"cfg 2", "ev 3 61 ~", "ev 3 61 -", "ev 3 - -", "ev 3 - ~", "pp 0 0 3:61.~;61.-;-.~ nil"}})
+	}
 	// concurrent handling of the same events (gossip and push/pull at the same moment)
 	nConc := 4
 	if tier == "thorough" {
@@ -249,6 +355,9 @@ func c05GenCases(rng *rand.Rand, tier string) []Case {
 	for i := 0; i < nr; i++ {
 		n := uint64(c05BufSizes[rng.Intn(len(c05BufSizes))])
 		g := &c05Gen{rng: rng, n: n, cur: 1, bySlot: map[uint64]uint64{}}
+		if rng.Intn(3) == 0 {
+			g.fam = c05Family(rng)
+		}
 		g.ops = append(g.ops, fmt.Sprintf("cfg %d", n))
 		allowMax := rng.Intn(25) == 0
 		tags := []string{"random"}
@@ -288,6 +397,9 @@ func c05GenCases(rng *rand.Rand, tier string) []Case {
 		}
 		if hasPP {
 			tags = append(tags, "pushpull")
+		}
+		if g.fam != nil {
+			tags = append(tags, "ambiguous-family")
 		}
 		tags = append(tags, fmt.Sprintf("N=%d", n))
 		out = append(out, Case{ID: fmt.Sprintf("r%d", i), Ops: g.ops, Nontrivial: g.dup && g.coll, Tags: tags})
@@ -423,8 +535,8 @@ func c05Exec(ops []string) []string {
 			outs = append(outs, "ok")
 		case len(f) == 4 && f[0] == "ev" && node != nil:
 			lt, err := strconv.ParseUint(f[1], 10, 64)
-			name, payload := unhex(f[2]), unhex(f[3])
-			if err != nil || name == nil || payload == nil {
+			name, payload, pok := unhex(f[2]), c05Payload(f[3]), c05PayloadOK(f[3])
+			if err != nil || name == nil || !pok {
 				outs = append(outs, "bad-op")
 				continue
 			}
@@ -464,11 +576,11 @@ func c05Exec(ops []string) []string {
 				if p[1] != "" {
 					for _, it := range strings.Split(p[1], ";") {
 						np := strings.SplitN(it, ".", 2)
-						if len(np) != 2 || unhex(np[0]) == nil || unhex(np[1]) == nil {
+						if len(np) != 2 || unhex(np[0]) == nil || !c05PayloadOK(np[1]) {
 							bad = true
 							break
 						}
-						slot.Events = append(slot.Events, serf.VerifUserEvent{Name: string(unhex(np[0])), Payload: unhex(np[1])})
+						slot.Events = append(slot.Events, serf.VerifUserEvent{Name: string(unhex(np[0])), Payload: c05Payload(np[1])})
 					}
 				}
 				image = append(image, slot)
@@ -497,7 +609,7 @@ func init() {
 	register(&Prop{
 		ID: "C05",
 		Rule: "a real single Serf node per case (serf.Create, recording memberlist transport), EventBuffer N; user events through NotifyMsg, push/pull images through MergeRemoteState (with and without join-ignore). " +
-			"exhaustive: every sequence of ≤3 events over times {1,2,3,4,6} (thorough: ≤4 over {1,2,3,4,5,7}) × 2 items for N ∈ {1,2,3}; random: N ∈ {1,2,3,4,8,512}, 3–25 ops, times drawn around cur−N−2…cur+1, ±k·N from earlier times (slot collisions), exact repeats, small values, near 2^64−1 (2^64−1 itself in ≈4% of the cases and in the two fixed boundary cases); " +
+			"exhaustive: every sequence of ≤3 events over times {1,2,3,4,6} (thorough: ≤4 over {1,2,3,4,5,7}) × 2 items for N ∈ {1,2,3}; fixed: pairs of distinct events at one Lamport time whose name/payload concatenations coincide under the separators colon, none, slash, NUL, space, bar, equals, newline, comma, double colon (incl. the seeded deploy:web|v2 vs deploy|web:v2), empty name / empty payload, nil vs empty payload; random: N ∈ {1,2,3,4,8,512}, 3–25 ops, in a third of the cases all items come from one such ambiguous family (splits of one string around a separator, prefixes/suffixes, empty sides) and events share Lamport times, times drawn around cur−N−2…cur+1, ±k·N from earlier times (slot collisions), exact repeats, small values, near 2^64−1 (2^64−1 itself in ≈4% of the cases and in the two fixed boundary cases); " +
 			"non-trivial = the case contains an exact duplicate and a slot collision; distinct = distinct op sequence",
 		Gen:  c05GenCases,
 		Exec: c05Exec,
